@@ -6,6 +6,7 @@ import Rtp.Proofs.Obu
 import Rtp.Proofs.AV1Depack
 namespace Rtp.Model.AV1
 open Rtp Rtp.Model Rtp.Spec.Av1Rtp
+open Rtp.Model.ObuLemmas
 namespace DepackRT
 
 theorem emitObu_good (b : Bytes) (len : Nat) (h : goodUnit b) :
